@@ -31,6 +31,10 @@ TX_CAP = 64
 BUSY_HITS = 0     # how often the wall-clock watchdog fired in this process (explorers stop early when it does)
 
 
+# names the modelled resolver knows (host strings an application may configure instead of an IP literal)
+RESOLVER = {'inverter.local': '10.0.0.2', 'localhost': '127.0.0.1', '10.0.2': '10.0.0.2'}
+
+
 class FakeSock:
     """Duck-typed non-blocking socket; the peer decides what comes back."""
 
@@ -267,6 +271,10 @@ class KLoop(selector_events.BaseSelectorEventLoop):
         return self.kern.now
 
     async def create_datagram_endpoint(self, protocol_factory, local_addr=None, remote_addr=None, **kw):
+        # name resolution: a host given as a name (or a non-canonical spelling) is resolved; what recvfrom() reports as the
+        # source of a datagram is the RESOLVED address, not the configured string
+        if remote_addr and remote_addr[0] in RESOLVER:
+            remote_addr = (RESOLVER[remote_addr[0]], remote_addr[1])
         sock = FakeSock(self.kern, 'udp', remote_addr)
         protocol = protocol_factory()
         waiter = self.create_future()
@@ -281,6 +289,7 @@ class KLoop(selector_events.BaseSelectorEventLoop):
 
     async def create_connection(self, protocol_factory, host=None, port=None, **kw):
         k = self.kern
+        host = RESOLVER.get(host, host)
         peer = k.peer_for((host, port))
         outcome, latency = peer.on_connect()
         k.log.append(('connect', outcome, k.now))
